@@ -317,18 +317,23 @@ POOL = [["ab", "b"], ["a"], ["bc", "cc", ""], ["cd"], ["dda", "e"], ["abc"], ["e
         ["f", "g", "h", "i"], ["ihg", "f", "a"], ["zz", "y", "x", "w", "v", "u"], ["uvwxyz"]]
 
 
+ADD_DICTS = [{"c": 2, "a": 0, "b": 1, "e": 3, "d": 4}, {"e": 0, "d": 1, "c": 2, "b": 3, "a": 4}, {"b": 1, "a": 0}]
+
+
 def run_add(case):
     import vectorizers as V
     A = [list(d) for d in POOL[case["i"]]]
     B = [list(d) for d in POOL[case["j"]]]
-    a = V.NgramVectorizer().fit(A)
-    b = V.NgramVectorizer().fit(B)
+    # optionally every model is fitted with the same SUPPLIED vocabulary; its key order need not be its index order
+    mk = lambda: V.NgramVectorizer(token_dictionary=dict(ADD_DICTS[case["dict"]])) if case.get("dict") is not None else V.NgramVectorizer()
+    a = mk().fit(A)
+    b = mk().fit(B)
     v = []
     try:
         s = a + b
     except Exception as e:
         return res([viol("add-exception:%s" % type(e).__name__, "a + b raised %r" % (e,))])
-    whole = V.NgramVectorizer().fit(A + B)
+    whole = mk().fit(A + B)
     if set(s.column_label_dictionary_) != set(whole.column_label_dictionary_):
         v.append(viol("add-columns", "merged columns %s, concatenation gives %s" % (sorted(s.column_label_dictionary_), sorted(whole.column_label_dictionary_))))
         return res(v)
@@ -352,7 +357,7 @@ def run_add(case):
             v.append(viol("add-transform", "(a+b).transform differs from fit(concat).transform: (cell, merged, whole) %s" % bad))
     except Exception as e:
         v.append(viol("add-transform-exception:%s" % type(e).__name__, "(a+b).transform raised %r" % (e,)))
-    return res(v, nt=(case["i"], case["j"]), out="ok")
+    return res(v, nt=(case["i"], case["j"], case.get("dict")), out="ok")
 
 
 def subchecks(tier, seed):
@@ -360,6 +365,7 @@ def subchecks(tier, seed):
     g2 = lambda: _skip_cases(tier)
     g3 = lambda: _edge_cases(tier)
     adds = [{"i": i, "j": j} for i in range(len(POOL)) for j in range(len(POOL))]
+    adds += [{"i": i, "j": j, "dict": d} for d in range(len(ADD_DICTS)) for i in range(8) for j in range(8)]
 
     def g1n():
         for c in _ngram_cases("quick"):
